@@ -511,8 +511,10 @@ fn str_input(c: &StrCase) -> Value {
     json!({"kind": "literal", "level": c.level, "text": c.text, "text_hex": hex(&c.text), "expect": match c.valid { Some(true) => "accept", Some(false) => "reject", None => "" }})
 }
 
-/// classifier of string literals for known findings (computed from the input text only)
-pub fn string_class(text: &str) -> Value {
+/// classifier of string literals for known findings (computed from the input — text and level — only):
+/// the first escape of the literal whose handling is a known gap names the class
+pub fn string_class(text: &str, level: &str) -> Value {
+    let lv = STD_LEVELS.iter().find(|l| l.0 == level).map(|l| l.1).unwrap_or(5);
     let b: Vec<char> = text.chars().collect();
     if b.is_empty() || (b[0] != '"' && b[0] != '\'') {
         return Value::Null;
@@ -534,17 +536,34 @@ pub fn string_class(text: &str) -> Value {
                 i = j;
                 continue;
             }
-            if e == 'u' {
-                return json!("string-unicode-escape");
+            if lv == 1 {
+                // Lua 5.1 takes `\x`, `\z`, `\u` literally; the lexer/checker treat them as in 5.2+
+                if e == 'x' || e == 'z' || e == 'u' {
+                    return json!("string-lua51-literal-escape");
+                }
+                i += 2;
+                continue;
             }
-            if e == 'z' {
-                let mut j = i + 2;
-                while j < b.len() && (b[j] == ' ' || b[j] == '\t' || b[j] == '\r' || b[j] == '\n') {
-                    j += 1;
+            if e == 'u' && lv >= 3 {
+                // well-formed: {hex+} with a value the level can encode
+                let max: u64 = if lv == 3 { 0x10FFFF } else { 0x7FFF_FFFF };
+                let mut ok = false;
+                if i + 2 < b.len() && b[i + 2] == '{' {
+                    let mut j = i + 3;
+                    let mut v: u64 = 0;
+                    let mut digits = 0;
+                    while j < b.len() && b[j].is_ascii_hexdigit() {
+                        v = (v * 16 + b[j].to_digit(16).unwrap() as u64).min(1 << 40);
+                        digits += 1;
+                        j += 1;
+                    }
+                    ok = digits > 0 && j < b.len() && b[j] == '}' && v <= max;
                 }
-                if j < b.len() && (b[j] == '\x0B' || b[j] == '\x0C') {
-                    return json!("string-z-skips-vt-ff");
+                if !ok {
+                    return json!("string-malformed-unicode-escape");
                 }
+                i += 2;
+                continue;
             }
             if !"abfnrtvxz\\\"'\n\r".contains(e) {
                 return json!("string-unknown-escape");
@@ -626,10 +645,10 @@ fn check_strs(cases: &[StrCase], report: &mut Report, diag: &mut Diag, r55: &mut
                 }
             }
             if valid && !d.is_empty() {
-                report.oracle_failure(json!({"input": str_input(c), "class": string_class(&c.text),
+                report.oracle_failure(json!({"input": str_input(c), "class": string_class(&c.text, c.level),
                     "what": format!("valid {} literal ({}) reported as syntax error: {}", c.level, c.why, d[0])}));
             } else if !valid && d.is_empty() {
-                report.oracle_failure(json!({"input": str_input(c), "class": string_class(&c.text),
+                report.oracle_failure(json!({"input": str_input(c), "class": string_class(&c.text, c.level),
                     "what": format!("invalid {} literal ({}) produces no syntax-error diagnostic", c.level, c.why)}));
             }
         }
